@@ -69,6 +69,17 @@ def integrate_instances(tier, prop):
     for fam, evs, dense in combos:
         out.append(dict(id="integrate-%s-%s-%s-N%d" % (fam, evs, "dense" if dense else "nodense", N), kind="integrate", family=fam, events=list(evs),
                         dense=dense, N=N, max_reports=3, budget=b))
+    # end-to-end cross-checks: real handle_events + real brentsrootvec inside integrate, time event alpha*(t - r)
+    alphas = [1.0, -1000.0] if quick else [1.0, -1.0, 1e-3, 1000.0, -1e6]
+    for al in alphas:
+        for dense in ((True,) if quick else (True, False)):
+            for direction in ((0,) if quick else (0, 1, -1)):
+                if prop == "C09":
+                    out.append(dict(id="e2e-euler-terminal-a%g-d%d-%s" % (al, direction, "dense" if dense else "nodense"), kind="e2e", family="euler", alpha=al,
+                                    dense=dense, direction=direction, terminal=True, budget=b))
+                else:
+                    out.append(dict(id="e2e-euler-a%g-d%d-%s" % (al, direction, "dense" if dense else "nodense"), kind="e2e", family="euler", alpha=al,
+                                    dense=dense, direction=direction, budget=b))
     if prop == "C09":
         out.append(dict(id="integrate-euler-T-infinite-tf", kind="integrate", family="euler", events=["T"], dense=True, N=2, infinite_tf=True, max_reports=2, budget=b))
     return out
@@ -81,6 +92,8 @@ def instances(tier):
 def scenario(c, inst):
     if inst["kind"] == "handle":
         return handle_scenario(c, inst, {"C07"})
+    if inst["kind"] == "e2e":
+        return EC.scenario_e2e(c, inst, {"C07"})
     return EC.scenario(c, inst, {"C07"})
 
 
